@@ -28,7 +28,10 @@ CHECKS["C04"] = dict(
        "__rmul__ (and the helpers they call, each against its own contract): for every inferred operand type, every argument kind "
        "(int, bool, None, float, str, other) and ALL integers, exceptions are raised iff documented and the emitted text parses to "
        "the same tree as the fully parenthesised (?:P){lo,hi}[?] - integer leaves compared by the solver. Unbounded in the integers "
-       "and operands. The seven class spellings (quantifiers.py) are proved to have the text of the method spelling.",
+       "and operands. The seven class spellings (quantifiers.py) are proved to have the text of the method spelling. "
+       "The operand's category (atom or not: decides (?:P) vs P) and the repeatable flag the methods consult (a wrongly refused operand "
+       "has no repetitions at all) are __infer_type's assumed contract: bounded stand-in B1 (category and flag clauses), run here and "
+       "reported as bounded.",
   note=PROOF_NOTE + " Bounds below sre MAXREPEAT.",
   technique="contract-based deductive verification: AST->VC symbolic execution of the real methods, callee contracts, z3; tree equality via CPython's parser on placeholder texts",
   design_ref="DESIGN.md section 8 (C04), 3.3, Appendix B.1")
@@ -49,8 +52,9 @@ CHECKS["C11"] = dict(
        "exactly (pattern, MULTILINE|DOTALL, text) on both the cached-compiled and the uncompiled branch; compile/"
        "get_compiled_pattern/purge preserve the cache invariant and write only the cache (frame), so results are independent of any "
        "history. All patterns, texts, histories - no bound. The same contracts are also evaluated at run time on the real code "
-       "(bounded, reported separately).",
-  note=G5NOTE, technique="contract-based deductive verification (wiring contracts against an axiomatised re API; EUF/LIA in z3)",
+       "(bounded, reported separately). That the EXPORTED text compile() feeds to re denotes the same regex as the pattern is "
+       "__repr__'s assumed contract: bounded stand-in B4 (quotes, backslash runs, control and non-BMP characters), run here.",
+  note=G5NOTE, technique="contract-based deductive verification (wiring contracts against an axiomatised re API; EUF/LIA in z3); bounded stand-in B4 for __repr__",
   design_ref="DESIGN.md section 8 (C11)")
 CHECKS["C12"] = dict(
   category="proof",
@@ -157,7 +161,8 @@ CHECKS["C06"] = dict(
        "point, at least one argument) and hand '[...]' / '[^...]' with exactly the requested characters, each special one escaped, "
        "to __Class.__init__ (ghost CLASSARG); __Class.__init__, __process and its merging step __chars_to_ranges are proved to keep "
        "what the bracket text lists (verbose text), relative to the parsing / printing assumptions of the text layer "
-       "(__extract_classes, __modify_classes, join of escaped items) - which is what B2 then checks end to end.",
+       "(__extract_classes, __modify_classes, join of escaped items) - decided completely by F2 (data independence) and F3 "
+       "(tokenisation lemma), which run here as under C07, and checked end to end by B2.",
   note="R7 about bracket expressions; specs/charsets.py written from the documentation / Unicode block definitions; Unicode surplus of "
        "\\d \\s \\w masked as the property allows.",
   technique="complete finite decision over all code points for the named classes; contracts + VCs (z3) for the parametric constructors' validation and bracket text; bounded contract check (labelled) of what the class text layer makes of that text",
